@@ -4,3 +4,5 @@ set -e
 cd "$(dirname "$0")"
 mkdir -p ../target
 gcc -O1 -g0 -pthread -o ../target/tgt tgt.c
+# the same program linked at a fixed address (ET_EXEC): its program headers carry absolute addresses
+gcc -O1 -g0 -pthread -no-pie -o ../target/tgt_nopie tgt.c
